@@ -43,6 +43,7 @@ type c13Shape struct {
 	Loop []string `json:"loop"`
 	Fn   []string `json:"fn"`
 	Dfn  []string `json:"dfn"`
+	Ufn  []string `json:"ufn"` // body of a function that has a deferred cleanup closure pending while it runs
 }
 
 func c13Shapes() []c13Shape {
@@ -69,6 +70,11 @@ func c13Shapes() []c13Shape {
 		// callee would add its own statements to the caller's
 		{Loop: append(append([]string{"p"}, rep("h", 11)...), "c", "p"), Fn: rep("h", 13)},
 		{Loop: append(append([]string{"p"}, rep("h", 9)...), "d", "h", "p"), Dfn: rep("h", 13)},
+		// the interrupt arrives while functions with a pending deferred cleanup are active:
+		// being a panic, it must run those deferred closures while unwinding
+		{Loop: []string{"p", "u", "p"}, Ufn: []string{"h", "p", "h", "h"}},
+		{Loop: []string{"p", "h", "u", "p"}, Ufn: []string{"p", "c", "h"}, Fn: []string{"h", "h"}},
+		{Loop: []string{"p", "u", "h", "p"}, Ufn: []string{"c", "h"}, Fn: []string{"h"}},
 	}
 }
 
@@ -83,7 +89,7 @@ func tlaStrSeq(ss []string) string {
 func c13MC() string {
 	var parts []string
 	for _, s := range c13Shapes() {
-		parts = append(parts, fmt.Sprintf("[loop |-> %s, fn |-> %s, dfn |-> %s]", tlaStrSeq(s.Loop), tlaStrSeq(s.Fn), tlaStrSeq(s.Dfn)))
+		parts = append(parts, fmt.Sprintf("[loop |-> %s, fn |-> %s, dfn |-> %s, ufn |-> %s]", tlaStrSeq(s.Loop), tlaStrSeq(s.Fn), tlaStrSeq(s.Dfn), tlaStrSeq(s.Ufn)))
 	}
 	return "c_Shapes == {" + strings.Join(parts, ",\n  ") + "}\n"
 }
@@ -100,6 +106,7 @@ type c13Rec struct {
 	HooksAfter int      `json:"hooksAfter"`
 	Since      int      `json:"since"`
 	Bound      int      `json:"bound"`
+	Cleanups   int      `json:"cleanups"`
 }
 
 var c13Serial int64
@@ -118,6 +125,8 @@ func c13Render(s c13Shape) (decls, entry, sfx string) {
 				b.WriteString(indent + "fn" + sfx + "()\n")
 			case "d":
 				b.WriteString(indent + "dw" + sfx + "()\n")
+			case "u":
+				b.WriteString(indent + "uf" + sfx + "()\n")
 			}
 		}
 		return b.String()
@@ -125,6 +134,7 @@ func c13Render(s c13Shape) (decls, entry, sfx string) {
 	var b strings.Builder
 	fmt.Fprintf(&b, "func fn%s() {\n%s}\n", sfx, stmts(s.Fn, "\t"))
 	fmt.Fprintf(&b, "func dw%s() {\n\tdefer func() {\n%s\t}()\n}\n", sfx, stmts(s.Dfn, "\t\t"))
+	fmt.Fprintf(&b, "var entered%s, cleaned%s int\nfunc uf%s() {\n\tentered%s++\n\tdefer func() {\n\t\tcleaned%s++\n\t}()\n%s}\n", sfx, sfx, sfx, sfx, sfx, stmts(s.Ufn, "\t"))
 	// the loop condition and post statement are the two "p" at the ends of the model's loop body
 	inner := s.Loop
 	if len(inner) >= 2 {
@@ -138,10 +148,15 @@ const c13Limit = 300
 
 // c13RunOne runs one (shape, k) on interpreter g; returns signature+description of a disagreement.
 func c13RunOne(g *gm.Interp, rec *c13Rec, battery []*ProgCase) (sig, what string, after int) {
-	decls, entry, _ := c13Render(rec.Shape)
+	decls, entry, sfx := c13Render(rec.Shape)
 	g.ResetEvents()
 	if r := g.Eval(decls); r.Panicked {
 		return "declaration-failed", r.Panic, 0
+	}
+	// the entry function as a Go value: called directly from compiled code after the interrupt
+	var direct func(int) int
+	if fv := g.Ir.ValueOf(entry); fv.IsValid() {
+		direct, _ = fv.Interface().(func(int) int)
 	}
 	after = 0
 	raised := false
@@ -178,6 +193,30 @@ func c13RunOne(g *gm.Interp, rec *c13Rec, battery []*ProgCase) (sig, what string
 	if q := c12Quiescent(fast.VerifSnapshot(g.Ir)); q != "" {
 		return "bookkeeping-not-restored", "after the interrupted evaluation: " + q, after
 	}
+	// the interrupt is a panic: every function that was active with a pending deferred closure
+	// has run it while unwinding (the model says how many such activations there were)
+	if r := g.Eval(fmt.Sprintf("entered%s - cleaned%s", sfx, sfx)); r.String() != "[int:0]" {
+		return "deferred-cleanup-skipped-by-interrupt", fmt.Sprintf("after the interrupt %s function activation(s) with a pending deferred closure did not run it (specification: %d such activation(s) were unwound)\n%s", r.String(), rec.Cleanups, decls), after
+	}
+	// compiled code calling the interpreted function directly (no PrepareEnv in between) must not
+	// meet a left-over interrupt
+	if direct != nil {
+		g.ResetEvents()
+		msg := func() (m string) {
+			defer func() {
+				if x := recover(); x != nil {
+					m = fmt.Sprintf("panicked with %v", x)
+				}
+			}()
+			if v := direct(2); v != 2 {
+				return fmt.Sprintf("returned %d", v)
+			}
+			return ""
+		}()
+		if msg != "" {
+			return "interrupt-left-pending", fmt.Sprintf("after the interrupt, calling %s(2) directly from compiled code %s\n%s", entry, msg, decls), after
+		}
+	}
 	// definitions intact: the same function runs to completion with the specified result
 	g.ResetEvents()
 	r2 := g.Eval(entry + "(3)")
@@ -190,6 +229,8 @@ func c13RunOne(g *gm.Interp, rec *c13Rec, battery []*ProgCase) (sig, what string
 			nh += count(rec.Shape.Fn, "h")
 		case "d":
 			nh += count(rec.Shape.Dfn, "h")
+		case "u":
+			nh += count(rec.Shape.Ufn, "h") + count(rec.Shape.Ufn, "c")*count(rec.Shape.Fn, "h")
 		}
 	}
 	if r2.Panicked || r2.String() != "[int:3]" || len(g.Events) != 3*nh {
